@@ -21,7 +21,8 @@ def _analyse(prop, overrides):
     from sa.check import analyse
     try:
         ctx = analyse(prop, "quick", Program(overrides=overrides))
-        return {"keys": [f.key for f in ctx.findings], "error": None}
+        files = sorted(ctx.prog.modules[m].relpath for m in ctx.modules_consulted if m in ctx.prog.modules)
+        return {"keys": [f.key for f in ctx.findings], "error": None, "files": files}
     except AnalysisError as e:
         return {"keys": [], "error": str(e)}
     except Exception as e:
@@ -82,11 +83,88 @@ def _seed_edits(seed_id):
     return edits
 
 
+def _patch_edits(path):
+    edits, file, old, new = [], None, None, None
+
+    def flush():
+        if file and old is not None and (old or new):
+            edits.append((file, "".join(old), "".join(new)))
+    with open(path, encoding="utf-8") as fh:
+        for line in fh:
+            if line.startswith("+++ "):
+                flush()
+                old = new = None
+                file = line[4:].strip()
+                file = file[2:] if file.startswith("b/") else file
+            elif line.startswith("@@"):
+                flush()
+                old, new = [], []
+            elif line.startswith(("diff ", "index ", "--- ", "new file", "deleted file", "similarity", "rename ")):
+                continue
+            elif old is not None:
+                if line.startswith(" "):
+                    old.append(line[1:])
+                    new.append(line[1:])
+                elif line.startswith("-"):
+                    old.append(line[1:])
+                elif line.startswith("+"):
+                    new.append(line[1:])
+                elif line == "\n":
+                    old.append(line)
+                    new.append(line)
+    flush()
+    return edits
+
+
+def _apply_patch_file(path, repo):
+    """apply a unified diff in memory, hunk by hunk at its line position (nearest exact match of the hunk's old text)"""
+    import re
+    files, cur, hunks = {}, None, None
+    with open(path, encoding="utf-8") as fh:
+        for line in fh:
+            if line.startswith("+++ "):
+                cur = line[4:].strip()
+                cur = cur[2:] if cur.startswith("b/") else cur
+                hunks = files.setdefault(cur, [])
+            elif line.startswith("@@") and hunks is not None:
+                m = re.match(r"@@ -(\d+)", line)
+                hunks.append([int(m.group(1)), [], []])
+            elif line.startswith(("diff ", "index ", "--- ", "new file", "deleted file", "similarity", "rename ")):
+                continue
+            elif hunks:
+                h = hunks[-1]
+                if line.startswith(" ") or line == "\n":
+                    h[1].append(line[1:] if line.startswith(" ") else line)
+                    h[2].append(line[1:] if line.startswith(" ") else line)
+                elif line.startswith("-"):
+                    h[1].append(line[1:])
+                elif line.startswith("+"):
+                    h[2].append(line[1:])
+    ov = {}
+    for file, hs in files.items():
+        with open(os.path.join(repo, file), encoding="utf-8") as fh:
+            lines = fh.read().splitlines(keepends=True)
+        shift = 0
+        for start, old, new in hs:
+            pos = start - 1 + shift
+            cands = [k for k in range(0, len(lines) - len(old) + 1) if lines[k:k + len(old)] == old]
+            if not cands:
+                return None
+            k = min(cands, key=lambda c: abs(c - pos))
+            lines[k:k + len(old)] = new
+            shift += len(new) - len(old)
+        ov[file] = "".join(lines)
+        compile(ov[file], file, "exec")
+    return ov
+
+
 def _apply(case, repo):
     if "revert" in case:
         edits = _revert_edits(case["revert"])
     elif "seed" in case:
-        edits = _seed_edits(case["seed"])
+        return _apply_patch_file(os.path.join(os.path.dirname(os.path.dirname(os.path.dirname(os.path.abspath(__file__)))), "seeded", case["seed"], "patch.diff"), repo)
+    elif "neutral_patch" in case:
+        return _apply_patch_file(os.path.join(os.path.dirname(os.path.dirname(os.path.dirname(os.path.abspath(__file__)))), "neutral", case["neutral_patch"], "patch.diff"), repo)
     else:
         edits = case.get("edits") or [(case["file"], case["old"], case["new"])]
     ov = {}
@@ -127,10 +205,25 @@ def run_battery(prop: str, seed: int = 0) -> dict:
         return {"failed": [f"baseline analysis error: {base['error']}"]}
     basekeys = set(base["keys"])
     jobs = [(prop, "mutant", c, REPO) for c in mod.MUTANTS] + [(prop, "neutral", c, REPO) for c in mod.NEUTRALS]
+    # behaviour-preserving refactorings made by sub-agents (/verif/neutral/<id>): every one that touches a file this check
+    # consults must leave it silent
+    ndir = os.path.join(os.path.dirname(os.path.dirname(os.path.dirname(os.path.abspath(__file__)))), "neutral")
+    n_ref = 0
+    if os.path.isdir(ndir):
+        import json as _json
+        for nid in sorted(os.listdir(ndir)):
+            mp_ = os.path.join(ndir, nid, "meta.json")
+            pp_ = os.path.join(ndir, nid, "patch.diff")
+            if not (os.path.exists(mp_) and os.path.exists(pp_)) or not _json.load(open(mp_)).get("equivalence_confirmed"):
+                continue
+            touched = {l[6:].strip() for l in open(pp_) if l.startswith("+++ b/")}
+            if touched & set(base.get("files", [])):
+                jobs.append((prop, "neutral", {"name": f"refactoring {nid}", "neutral_patch": nid}, REPO))
+                n_ref += 1
     random.Random(seed).shuffle(jobs)
     with mp.Pool(min(16, max(1, len(jobs)))) as pool:
         results = pool.map(_job, jobs)
-    out = {"mutants": len(mod.MUTANTS), "neutrals": len(mod.NEUTRALS), "detected": 0, "detected_fail_closed": 0,
+    out = {"mutants": len(mod.MUTANTS), "neutrals": len(mod.NEUTRALS) + n_ref, "refactorings_by_sub_agents": n_ref, "detected": 0, "detected_fail_closed": 0,
            "silent_on_neutral": 0, "inapplicable": [], "failed": [], "cases": []}
     # automatic neutral rewrites: whole-module reformat and renaming of every local of every analysed function
     try:
